@@ -96,6 +96,12 @@ func Solve(vc *VC, o *Obligation, secs int, thorough bool, tag string) SolveResu
 			return r
 		}
 	}
+	// Case split on the capacity tests of append-like calls ("fits" booleans): with them fixed
+	// the heap terms are ite-free and each case is decided in a fraction of a second, while
+	// the solvers' own search interleaves the split with arithmetic and often does not finish.
+	if r, ok := solveSplit(q, secs, tag); ok {
+		return r
+	}
 	ctx, cancel := context.WithCancel(context.Background())
 	defer cancel()
 	ch := make(chan SolveResult, len(solvers))
